@@ -30,6 +30,7 @@ func init() {
 			{ID: "C15.R11", Text: "the session starts from what the guarded load returned: the position map is assigned only from Checkpoint.Load()#0 (or a fresh empty map) and mutated only by the position writer — nothing carried over from a previous session bypasses the checkpoint-ahead guard (same rule as C01.R1)", Run: c01r1},
 			{ID: "C15.R12", Text: "every end of a vBucket's stream reaches the end listener while the stream is open: End forwards ⇔ ¬endClosed and never writes the switch itself (same rule as C12.R4)", Run: c12r4},
 			{ID: "C15.R13", Text: "a stream that cannot be opened is reported to the fail-stop logic: openStream makes one request and returns its outcome — no loop, no sleep", Run: openOnce},
+			{ID: "C15.R14", Text: "open-all waits for all: every opener signals Done exactly once on every non-panicking path, Add(len(vbIDs)), Wait before return — and the same for the concurrent checkpoint load", Run: workersSignal("stream.stream).openAllStreams", "couchbase.cbMetadata).Load")},
 			{ID: "C15.R6", Text: "bounded reopen then fail-stop (same rule as C12.R3)", Run: c12r3},
 		},
 	})
